@@ -349,6 +349,12 @@ class BehavioralRTLIRToVVisitorL1( bir.BehavioralRTLIRNodeVisitor ):
         _one_bit = False
 
       # Manipulate the slicing string to avoid indexing on a sliced signal
+      if not _one_bit and getattr( node.value, 'size', None ):
+        # value[base +: size] has no constant MSB position to rewrite: select
+        # the sign bit from the concatenation of the part-select
+        _value = f"{{ {value} }}[{last_bit}]"
+        return one_bit_template.format( **locals() )
+
       if not _one_bit:
         l, col, r = value.rfind('['), value.rfind(':'), value.rfind(']')
         if -1 < l < col < r:
